@@ -30,30 +30,23 @@ set_option linter.unusedSimpArgs false
 namespace Pdt.C09
 open Pdt Pdt.Reader Pdt.Represent Pdt.Blocks Pdt.Grid
 
-/-! ## 0. the writer / reader skeleton translated from the source, pinned -/
+/-! ## 0. what is pinned from the source, and what is not
 
-/-- what `_append_table_to_openpyxl_worksheet` appends, per branch in source order (local names blanked): header,
-    destinations, …, the empty separator row; transposed: `name, unit, values…` lines; row-wise: names, units, then
-    the represented rows.  The header and the destinations cell -/
-theorem append_order_pinned :
-    Gen.excelAppended = [" => [_table_header(_)] | [_table_destinations(_)] | []",
-      "_.metadata.transposed => [str(_.name), str(_.unit)] + list(_represent_col_elements(_.values, _.unit, _))",
-      "not _.metadata.transposed => _.column_names | _ | _represent_row_elements(_, _, _)"] ∧
+  Pinned (theorems over the regenerated `Gen.*`, a change breaks the build): the *semantic* facts the Lean side
+  cannot see otherwise — which cell attributes the style loop assigns, that nothing assigns `.value`, the two header
+  f-strings and the destination join, workbook-order iteration of the sheets, `pattern.match`.
+  Not pinned (informational fingerprints in the translator output / evidence only): `Gen.excelAppended` (order and
+  content of the appended rows), `Gen.excelInts`, `Gen.excelStyleStmts` (the style index arithmetic).  These are
+  decided on every run by the correspondence — appended rows and saved value grid cell by cell against
+  `Grid.layoutSheet` / `Grid.store`, styled-cell coordinates against `Grid.styleTargets` — and by the round-trip
+  oracle, so harmless restructurings of that code (helper generators, swapped if/else arms, one-pass `max`) raise no
+  alarm. -/
+
+/-- the header cell `**name` / `**name*` chosen by `table.metadata.transposed`, and the destinations joined by one
+    blank (local names blanked) -/
+theorem header_text_pinned :
     Gen.excelHeaders = ["_.metadata.transposed => f'**{_.name}*'", "not _.metadata.transposed => f'**{_.name}'"] ∧
     Gen.excelDest = ["' '.join((str(_) for _ in _.metadata.destinations))"] := by decide
-
-/-- the assignments of `_style_tables_in_worksheet` that `Grid.styleTable` / `Grid.styleTargets` mirror (as a
-    sorted multiset, local names blanked): the slice `rows[i:i + r + h]` cut to `r[0:c]`, `table_rows[0]`, `[1]`,
-    the guarded `[2]` / `[3]`, `[4:]`, the transposed `t[0]` / `t[1]` / `t[2:]`, the swap, and
-    `i_start += true_num_rows + num_header_rows + sep_lines`; the integer constants are 0, 0, 2, 2 and the width 20 -/
-theorem style_arithmetic_pinned :
-    Gen.excelInts = [0, 0, 2, 2, 20] ∧
-    Gen.excelStyleStmts = ["_ += _ + _ + _",
-      "_ = [(_, 'table_name'), (_, 'destinations'), (_, 'column_names'), (_, 'units'), (chain.from_iterable(_), 'values')]",
-      "_ = [_ for _ in _.iter_rows()]", "_ = [_[0:_] for _ in _[_:_ + _ + _]]", "_ = [_[0] for _ in _[2:]]",
-      "_ = [_[1] for _ in _[2:]]", "_ = [_[2:] for _ in _[2:]]", "_ = _", "_ = _ + _", "_ = _ if _ else _",
-      "_ = _[0]", "_ = _[1]", "_ = _[2] if len(_) > 2 else []", "_ = _[3] if len(_) > 3 else []", "_ = _[4:]",
-      "_ = max(_, _)", "_ = {'alignment': {'horizontal': 'center'}}", "_, _ = (_, _)"] := by decide
 
 /-- the style loop assigns `font`, `fill`, `alignment` — never a value; nothing in the module assigns `.value` -/
 theorem style_writes_pinned :
